@@ -38,6 +38,20 @@ def treeTags (t : T) : List String :=
   tagIf (t.internalEdges.any (·.sup == NIL)) "absent-sup" ++
   tagIf (t.kids.any (·.2.isLeaf)) "tip-at-root"
 
+/- fidelity only (decides nothing): the tree with branch ids and parent positions erased — what a Newick text
+   keeps of it.  CLI cases re-read the printed tree, so ids are renumbered and every parent comes first; the
+   tag `exact-order` says that the model has the same nodes, data and CHILD ORDER as the printed tree. -/
+mutual
+def shapeT : T → T
+  | .node d _ k => .node d 0 (shapeL k)
+def shapeL : Kids → Kids
+  | [] => []
+  | (e, c) :: r => ({ e with id := 0 }, shapeT c) :: shapeL r
+end
+
+def fidelity (m a : T) : List String :=
+  tagIf (m.dump == a.dump) "exact" ++ tagIf ((shapeT m).dump == (shapeT a).dump) "exact-order"
+
 /-- number of inner branches -/
 def nInner (t : T) : Nat := (t.splits.filter (! ·.tip)).length
 
@@ -78,7 +92,7 @@ def judgeCollapse (crit : Option Crit) (rr rt : Bool) (b : T) (outcome : String)
       | none => ⟨.tie, tags, "model reports the TopoDepth error"⟩
       | some m =>
         if !(obsEq m a) then ⟨.tie, tags, "model " ++ m.dump⟩
-        else ⟨.pass, tags ++ tagIf (m.dump == a.dump) "exact", ""⟩
+        else ⟨.pass, tags ++ fidelity m a, ""⟩
 
 def tieThreshold (b : T) (f : EdgeD → Rat) (x : Rat) : List String :=
   tagIf ((b.internalEdges.any (f · == x))) "tie-threshold"
@@ -130,7 +144,7 @@ def handleOp (op : String) (f : List String) : Verdict :=
       if !(uniqueIds b) then ⟨.pass, "skip-dup" :: tags, ""⟩ else
       let model := collapseDepthStored stored mn mx rr rt b
       match T.undump after with
-      | none => if outcome.startsWith "panic" then ⟨.oracle, tags, "outcome " ++ outcome⟩ else bad "C07.depthstale after"
+      | none => if outcome.startsWith "panic" || outcome.startsWith "exit" || outcome.startsWith "malformed" then ⟨.oracle, tags, "outcome " ++ outcome⟩ else bad "C07.depthstale after"
       | some a =>
         -- oracle: with fresh sizes the property's post-condition; on an error nothing is removed
         if outcome == "err" && a.dump != b.dump then ⟨.oracle, tags, "error reported but the tree changed"⟩
@@ -140,7 +154,7 @@ def handleOp (op : String) (f : List String) : Verdict :=
           | none, "err" => ⟨.pass, "err" :: tags, ""⟩
           | some m, "ok" =>
             if !(obsEq m a) then ⟨.tie, tags, "model " ++ m.dump⟩
-            else ⟨.pass, tags ++ tagIf (m.dump == a.dump) "exact" ++ tagIf (nInner b > nInner a) "nontrivial", ""⟩
+            else ⟨.pass, tags ++ fidelity m a ++ tagIf (nInner b > nInner a) "nontrivial", ""⟩
           | _, _ => ⟨.tie, tags, "model " ++ (if model.isSome then "ok" else "err") ++ ", outcome " ++ outcome⟩
     | _, _, _, _, _, _ => bad "C07.depthstale fields"
   | "nonfinite", [kind, dump, outcome, after] =>
@@ -182,7 +196,7 @@ def handleOp (op : String) (f : List String) : Verdict :=
         | none => ⟨.tie, tags, "model rejects the draws; script " ++ toString (drawScript b)⟩
         | some m =>
           if !(obsEq m a) then ⟨.tie, tags, "model " ++ m.dump⟩
-          else ⟨.pass, tags ++ tagIf (m.dump == a.dump) "exact", ""⟩
+          else ⟨.pass, tags ++ fidelity m a, ""⟩
     | _, _ => bad "C07.resolve fields"
   | _, _ => bad ("C07: unknown op " ++ op)
 
@@ -202,6 +216,41 @@ def leavesIndexes (step : String) : Bool :=
   match (step.splitOn ":").head? with
   | some k => k == "reinit" || k == "resolve" || k == "len" || k == "sup" || k == "reroot"
   | none => false
+
+/-- the WHOLE history run in the model from the base tree, when it is made of collapses by length / support
+    (and `reinit`) only — the subject of `collapse_then_collapse`.  The harness renumbers the branch ids after
+    every step, the model keeps those of the base: the comparison (fidelity, decides nothing) erases ids. -/
+def modelHistory (steps : List String) (t : T) : Option T :=
+  steps.foldlM (fun t st =>
+    match st.splitOn ":" with
+    | ["reinit"] => some t
+    | ["len", ls, rrs, rts] =>
+      match parseRat? ls, parseBool rrs, parseBool rts with
+      | some l, some rr, some rt => some (collapseLen l rr rt t)
+      | _, _, _ => none
+    | ["sup", ss, rrs] =>
+      match parseRat? ss, parseBool rrs with
+      | some x, some rr => some (collapseSup x rr t)
+      | _, _ => none
+    | _ => none) t
+
+def historyTags (steps : List String) (bases afterS : String) : List String :=
+  match T.undump bases, T.undump afterS with
+  | some b0, some a =>
+    if !(uniqueIds b0) || !b0.uniqueTips then [] else
+    match modelHistory steps b0 with
+    | some m =>
+      let rrs := steps.filterMap fun st => match st.splitOn ":" with
+        | "len" :: _ :: rr :: _ => some rr
+        | "sup" :: _ :: rr :: _ => some rr
+        | _ => none
+      ["history"] ++ tagIf ((shapeT m).dump == (shapeT a).dump) "history-exact-order" ++
+        tagIf ((shapeT m).dump != (shapeT a).dump) "history-differs" ++
+        -- hypotheses of collapse_then_collapse: one removeRoot for all steps, and the root condition on the base
+        tagIf (rrs.length ≥ 2 && rrs.all (· == rrs.headD "") && hypExact (rrs.headD "" == "1") b0 &&
+               (rrs.headD "" == "1" || (3 ≤ b0.kids.length && b0.noSingle))) "hyp-history"
+    | none => []
+  | _, _ => []
 
 def handleSeq (f : List String) : Verdict :=
   match f with
@@ -229,7 +278,7 @@ def handleSeq (f : List String) : Verdict :=
           if !(resolveOK b a) then ⟨.oracle, tags, resolveWhy b a⟩
           else match resolve b draws with
             | none => ⟨.tie, tags, "model rejects the draws"⟩
-            | some m => if obsEq m a then ⟨.pass, tags, ""⟩ else ⟨.tie, tags, "model " ++ m.dump⟩
+            | some m => if obsEq m a then ⟨.pass, tags ++ fidelity m a, ""⟩ else ⟨.tie, tags, "model " ++ m.dump⟩
       | ["len", ls, rrs, rts] =>
         match parseRat? ls, parseBool rrs, parseBool rts with
         | some l, some rr, some rt =>
@@ -249,11 +298,11 @@ def handleSeq (f : List String) : Verdict :=
             -- never indexed: the model reads the same stored sizes (error, nothing removed)
             match T.undump after, collapseDepthStored stored mn mx rr rt b, outcome with
             | some a, none, "err" => if obsEq a b && a.nodeNames == b.nodeNames then ⟨.pass, "err" :: "seq-depth" :: tags0, ""⟩ else ⟨.oracle, tags0, "error reported but the tree changed"⟩
-            | some a, some m, "ok" => if obsEq m a then ⟨.pass, "seq-depth" :: tags0, ""⟩ else ⟨.tie, tags0, "model " ++ m.dump⟩
+            | some a, some m, "ok" => if obsEq m a then ⟨.pass, "seq-depth" :: tags0 ++ fidelity m a, ""⟩ else ⟨.tie, tags0, "model " ++ m.dump⟩
             | _, _, _ => ⟨.tie, tags0, "outcome " ++ outcome⟩
         | _, _, _, _ => bad "C07.seq depth"
       | _ => ⟨.pass, "seq-unjudged" :: tags0, ""⟩
-    | _, _, _, _ => if (f.getD 5 "").startsWith "panic" || (f.getD 5 "").startsWith "malformed" then ⟨.oracle, ["seq"], "outcome " ++ f.getD 5 ""⟩ else bad "C07.seq fields"
+    | _, _, _, _ => if (f.getD 5 "").startsWith "panic" || (f.getD 5 "").startsWith "malformed" || (f.getD 5 "").startsWith "exit" then ⟨.oracle, ["seq"], "outcome " ++ f.getD 5 ""⟩ else bad "C07.seq fields"
   | _ => bad "C07.seq arity"
 
 /- ## whole commands (`C07.cmd`) -/
@@ -324,7 +373,7 @@ def handleCmd (f : List String) : Verdict :=
         | some (mo, ok) =>
           if mo.length != outs.length || ok != (exit == "0") then ⟨.tie, tags, "model writes " ++ toString mo.length ++ " trees, ok=" ++ toString ok⟩
           else if !((mo.zip outs).all fun p => obsEq p.1 p.2) then ⟨.tie, tags, "model tree differs"⟩
-          else ⟨.pass, tags, ""⟩
+          else ⟨.pass, tags ++ tagIf ((mo.zip outs).all fun p => (shapeT p.1).dump == (shapeT p.2).dump) "exact-order", ""⟩
     | _, _, _, _ => bad "C07.cmd fields"
   | _ => bad "C07.cmd arity"
 
@@ -332,7 +381,10 @@ def handleCmd (f : List String) : Verdict :=
     binary again); they are judged exactly like the library cases. -/
 def handle (op : String) (f : List String) : Verdict :=
   if op == "cmd" then handleCmd f else
-  if op == "seq" then handleSeq f else
+  if op == "seq" then
+    let v := handleSeq f
+    { v with tags := v.tags ++ (if v.status == .pass then historyTags ((f.getD 0 "").splitOn ";") (f.getD 1 "") (f.getD 6 "") else []) }
+  else
   match op.splitOn "@" with
   | [o, "cli"] => let v := handleOp o f; { v with tags := "cli" :: v.tags }
   | _ => handleOp op f
